@@ -24,6 +24,10 @@ static COUNTER: Mutex<Option<HashMap<String, usize>>> = Mutex::new(None);
 
 /// A function used to count named objects
 fn count<S: Into<String>>(key: S) -> usize {
+    #[cfg(qrlew_verif)]
+    let key: String = key.into();
+    #[cfg(qrlew_verif)]
+    let _verif_scope = crate::verif::counter_scope("count", &key, || verif_peek(&key));
     *COUNTER
         .lock()
         .unwrap()
@@ -31,6 +35,16 @@ fn count<S: Into<String>>(key: S) -> usize {
         .entry(key.into())
         .and_modify(|count| *count += 1)
         .or_default()
+}
+
+/// Verification hook: the current value of a counter, without drawing from it
+#[cfg(qrlew_verif)]
+pub fn verif_peek(key: &str) -> Option<usize> {
+    COUNTER
+        .lock()
+        .unwrap()
+        .as_ref()
+        .and_then(|counters| counters.get(key).cloned())
 }
 
 /// A function used to hash named objects
@@ -42,6 +56,8 @@ fn hash<H: Hash>(content: &H) -> u64 {
 
 /// A function used to count named objects
 pub fn reset() {
+    #[cfg(qrlew_verif)]
+    let _verif_scope = crate::verif::counter_scope("reset", "", || None);
     *COUNTER.lock().unwrap() = None;
 }
 
